@@ -159,11 +159,11 @@ def parse_probe(out):
                           'view1': ints(kv['view1']), 'view2': ints(kv['view2']),
                           'firedself': ints(kv.get('firedself', '-')), 'chainself': ints(kv.get('chainself', '-')),
                           'remaster': kv.get('remaster', '-'), 'rechain': ints(kv.get('rechain', '-')),
-                          'nested': ints(kv.get('nested', '-')), 'refired': ints(kv.get('refired', '-'))})
+                          'nested': ints(kv.get('nested', '-')), 'refired': ints(kv.get('refired', '-')), 'cvexpr': int(kv.get('cvexpr', '-1'))})
     return cats, absanc, ifaces, noiface, nodes
 
 
-OBS_KEYS = ('cat', 'dyn', 'absdyn', 'fired', 'chain', 'view1', 'view2', 'firedself', 'chainself', 'rechain', 'nested', 'refired')
+OBS_KEYS = ('cat', 'dyn', 'absdyn', 'fired', 'chain', 'view1', 'view2', 'firedself', 'chainself', 'rechain', 'nested', 'refired', 'cvexpr')
 # Declaration kinds that cannot be declared twice (include/ipr/impl: "Parameters, base-subobjects and enumerations cannot be multiply
 # declared in a given region"; a handler has one exception parameter): their nodes are always their own master.
 NOT_REDECLARABLE = {'Parameter', 'Enumerator', 'Base_type', 'EH_parameter'}
@@ -321,6 +321,11 @@ class Observation:
             if r['refired'] != [own, own, own]:
                 bad.append('a visitor overriding every hook, whose hook raised at the first visit, visits the node again and, from inside '
                            'that hook, once more: the hooks entered (the raising one included) are %s, not %s' % (hn(r['refired']), hn([own, own, own])))
+            expr_hook = next((h for h in set(ch) if self.hook_name(h) == 'Expr'), None)
+            want_cv = ch.count(expr_hook) if expr_hook is not None else 0
+            if r.get('cvexpr', -1) not in (-1, want_cv):
+                bad.append('a visitor built on Constant_visitor<No_op> that overrides only the Expr hook had it entered %d time(s); the default chain %s enters it %d time(s)' % (
+                    r['cvexpr'], hn(ch), want_cv))
             if r['view1'] != [own] or r['view2']:
                 bad.append('util::view<K> answers the node for K in %s%s; it must do so for K = %s only' % (
                     hn(r['view1']), (' and another node for K in ' + hn(r['view2'])) if r['view2'] else '', self.code_name.get(own)))
